@@ -46,7 +46,7 @@ Lemma leaf_run_eth_form c w s a n g p v x s1 :
   let s1' := if r_evm_nonce r then set_seq s0 a (S (seq_of s0 a)) else s0 in
   let s2 := if post_nonce c (x_kind x) then set_seq s1' a (S n) else s1' in
   let s3 := if r_ok r then add_bal (add_bal s2 a (- v)) (w_sink w) v else s2 in
-  let refund := refund_of g (r_used r) p in
+  let refund := refund_of g (r_used r) (refund_price c p x) in
   s1 = add_ran (add_fee (add_bal s3 a refund) (- refund)) (EthTx a n g p v x).
 Proof.
   unfold leaf_run. destruct (g <? x_intr x) eqn:Hg; [discriminate|]. apply Z.ltb_ge in Hg.
@@ -76,11 +76,12 @@ Qed.
 
 (** the only credit to the sender is the refund, never more than gas limit × price *)
 Lemma leaf_run_eth_bal c w s a n g p v x s1 :
+  refund_price c p x = p ->
   0 <= p -> 0 <= v -> 0 <= x_intr x -> 0 <= x_exec x ->
   leaf_run c w s (EthTx a n g p v x) = Some s1 ->
   forall b, b <> w_sink w -> bal_of s1 b <= bal_of s b + (if Nat.eqb b a then (g * p) / WEI else 0).
 Proof.
-  intros Hp Hv Hi He H b Hb. apply leaf_run_eth_form in H as [Hg H]. cbv zeta in H. subst s1.
+  intros Hrp Hp Hv Hi He H b Hb. apply leaf_run_eth_form in H as [Hg H]. cbv zeta in H. subst s1. rewrite Hrp.
   pose proof (eth_exec_used s a g v x Hi He Hg) as Hu.
   assert (Hle : refund_of g (r_used (eth_exec s a g v x)) p <= g * p / WEI).
   { unfold refund_of. apply Z.div_le_mono; [unfold WEI; lia|nia]. }
@@ -303,13 +304,13 @@ Qed.
 (** when the gas and nonce decorators are installed, a successful EVM ante pass IS an admission of every
     message, in order: nonce = sequence, sequence + 1, gas × price moved to the fee collector *)
 Lemma evm_admit_admits c ms s s1 :
-  e_gas c = true -> fee_exact c = true -> e_seq c = true ->
+  e_gas c = true -> fee_exact c = true -> e_seq c = true -> (forall ty, fee_floor c ty = true) ->
   evm_admit c ms s = Some s1 -> exists ls, direct_eth ms = Some ls /\ admit_seq s ls s1.
 Proof.
-  intros Hgas Hexact Hseq. revert s. induction ms as [|m ms IH]; intros s H; simpl in H.
+  intros Hgas Hexact Hseq Hfl. revert s. induction ms as [|m ms IH]; intros s H; simpl in H.
   - inversion H. subst. exists []. split; [reflexivity|constructor].
   - destruct m as [[a n g p v xi|?|? ? ?|? ? ? ? ? ? ?]| | | |]; simpl in H; try discriminate.
-    unfold evm_admit_one in H. rewrite Hgas, Hseq, Hexact in H. unfold prepay in H.
+    unfold evm_admit_one, pay_price in H. rewrite Hfl, Hgas, Hseq, Hexact in H. unfold prepay in H.
     destruct (bal_of s a <? g * p / WEI) eqn:Hb; [discriminate|].
     rewrite seq_of_add_fee, seq_of_add_bal in H.
     destruct (Nat.eqb n (seq_of s a)) eqn:Hn; [|discriminate].
@@ -344,7 +345,10 @@ Definition cfg_ok (c : cfg) : Prop :=
   e_gas c = true /\ fee_exact c = true /\ e_seq c = true /\ e_sig c = true /\
   post_nonce_call c = true /\ post_nonce_create c = true /\
   route_tx c NoExt = RouteNonEVM /\ route_tx c OtherExt <> RouteEVM /\
-  (route_tx c EvmExt = RouteEVM \/ route_tx c EvmExt = RouteReject).
+  (route_tx c EvmExt = RouteEVM \/ route_tx c EvmExt = RouteReject) /\
+  (* both sides of the gas accounting price the gas at the effective price max(base fee, named price), for every
+     transaction type *)
+  (forall ty, fee_floor c ty = true) /\ (forall ty, refund_floor c ty = true).
 
 Definition route_eqb (a b : route) : bool :=
   match a, b with
@@ -359,17 +363,27 @@ Definition cfg_okb (c : cfg) : bool :=
   sig_on c && negb (sig_accepts_eth c) && wasm_signer c && signer_recovered c && e_gas c && fee_exact c && e_seq c && e_sig c &&
   post_nonce_call c && post_nonce_create c &&
   route_eqb (route_tx c NoExt) RouteNonEVM && negb (route_eqb (route_tx c OtherExt) RouteEVM) &&
-  (route_eqb (route_tx c EvmExt) RouteEVM || route_eqb (route_tx c EvmExt) RouteReject).
+  (route_eqb (route_tx c EvmExt) RouteEVM || route_eqb (route_tx c EvmExt) RouteReject) &&
+  forallb (fun ty => fee_floor c ty && refund_floor c ty) [TLegacy; TAccess; TDynamic].
 
 Lemma cfg_okb_sound c : cfg_okb c = true -> cfg_ok c.
 Proof.
-  unfold cfg_okb, cfg_ok. intro H. repeat (apply andb_true_iff in H as [H ?]).
-  repeat split; auto.
+  unfold cfg_okb, cfg_ok. intro H. apply andb_true_iff in H as [H Hfl].
+  assert (Hall : forall ty, fee_floor c ty = true /\ refund_floor c ty = true).
+  { intro ty. rewrite forallb_forall in Hfl. apply andb_true_iff. apply Hfl. destruct ty; simpl; auto. }
+  repeat (apply andb_true_iff in H as [H ?]).
+  repeat split; auto; try (intro ty; apply Hall).
   - destruct (sig_accepts_eth c); [discriminate|reflexivity].
   - now apply route_eqb_eq.
   - intro E. apply route_eqb_eq in E. rewrite E in *. discriminate.
   - apply orb_true_iff in H0 as [E|E]; apply route_eqb_eq in E; auto.
 Qed.
+
+Lemma cfg_ok_floor c : cfg_ok c -> (forall ty, fee_floor c ty = true) /\ (forall ty, refund_floor c ty = true).
+Proof. intros (_ & _ & _ & _ & _ & _ & _ & _ & _ & _ & _ & _ & _ & H1 & H2). split; assumption. Qed.
+
+Lemma cfg_ok_refund_price c p x : cfg_ok c -> refund_price c p x = p.
+Proof. intro Hc. unfold refund_price. rewrite (proj2 (cfg_ok_floor c Hc)). reflexivity. Qed.
 
 Lemma cfg_ok_post_nonce c k : cfg_ok c -> post_nonce c k = true.
 Proof. intros (_ & _ & _ & _ & _ & _ & _ & _ & H1 & H2 & _). destruct k; assumption. Qed.
@@ -407,7 +421,8 @@ Theorem deliver_eth_only_behind_evm_ante c w s x :
   grants_ok w s' /\
   exists added, ran s' = added ++ ran s /\ forall l, In l added -> admitted_in s x l.
 Proof.
-  intros (Hsigon & Hsig & Hwasm & Hrecov & Hgas & Hexact & Hseq & _ & _ & _ & Hno & Hother & Hevm) Hw Hwf Hg.
+  intros Hc Hw Hwf Hg.
+  pose proof Hc as (Hsigon & Hsig & Hwasm & Hrecov & Hgas & Hexact & Hseq & _ & _ & _ & Hno & Hother & Hevm).
   destruct (route_tx c (t_ext x)) eqn:Hroute.
   - (* non-EVM route: nothing runs *)
     destruct (nonevm_deliver_frame w c Hw Hwasm Hrecov Hsigon Hsig s x Hwf Hg Hroute) as (Hg' & Hran & _).
@@ -420,7 +435,7 @@ Proof.
       [|simpl; split; [exact Hg|exists []; split; [reflexivity|intros l []]]].
     destruct (evm_admit c (t_msgs x) s) as [s1|] eqn:Ha;
       [|simpl; split; [exact Hg|exists []; split; [reflexivity|intros l []]]].
-    destruct (evm_admit_admits c _ _ _ Hgas Hexact Hseq Ha) as (ls & Hd & Hadm).
+    destruct (evm_admit_admits c _ _ _ Hgas Hexact Hseq (proj1 (cfg_ok_floor c Hc)) Ha) as (ls & Hd & Hadm).
     assert (Hgr1 : grants s1 = grants s).
     { clear -Hadm. induction Hadm; [reflexivity|]. rewrite IHHadm. reflexivity. }
     assert (Hran1 : ran s1 = ran s).
@@ -561,7 +576,7 @@ Proof.
   intros Hc Hroute. rewrite (deliver_evm_unfold c w s x Hroute).
   pose proof Hc as (_ & _ & _ & _ & Hgas & Hexact & Hseq & _).
   destruct (evm_ante c w s x) as [s1|] eqn:Ha; [right|left; auto].
-  destruct (evm_admit_admits c _ _ _ Hgas Hexact Hseq (evm_ante_admit _ _ _ _ _ Ha)) as (ls & Hd & Hadm).
+  destruct (evm_admit_admits c _ _ _ Hgas Hexact Hseq (proj1 (cfg_ok_floor c Hc)) (evm_ante_admit _ _ _ _ _ Ha)) as (ls & Hd & Hadm).
   exists ls, s1. repeat split; auto. intro b.
   destruct (run_msgs c w (t_msgs x) s1) as [s2|] eqn:Hr; simpl.
   - rewrite (run_admitted_keeps_seq c w _ ls s s1 s2 Hc Hd Hadm Hr b). apply admit_seq_count. exact Hadm.
@@ -629,7 +644,7 @@ Proof.
   pose proof (history_seq_mono c w h Hc Hw Hh _ Hg1 a Ha) as Hmono. fold t in Hmono.
   assert (Hnone : evm_ante c w t y = None).
   { destruct (evm_ante c w t y) as [t1|] eqn:Hay; [exfalso|reflexivity].
-    destruct (evm_admit_admits c _ _ _ Hgas Hexact Hseq (evm_ante_admit _ _ _ _ _ Hay)) as (ls' & Hd' & Hadm').
+    destruct (evm_admit_admits c _ _ _ Hgas Hexact Hseq (proj1 (cfg_ok_floor c Hc)) (evm_ante_admit _ _ _ _ _ Hay)) as (ls' & Hd' & Hadm').
     pose proof (admit_seq_nonce_ge _ _ _ Hadm' a n g' p' v' xi' (direct_eth_In_rev _ _ _ Hd' Hiny)). lia. }
   split; [exact Hnone|]. rewrite (deliver_evm_unfold c w t y Hry), Hnone. reflexivity.
 Qed.
@@ -658,11 +673,12 @@ Proof.
 Qed.
 
 Lemma run_direct_eth_bal c w ms ls :
+  (forall p x, refund_price c p x = p) ->
   direct_eth ms = Some ls -> Forall leaf_nonneg ls ->
   forall s s', run_msgs c w ms s = Some s' ->
   forall b, b <> w_sink w -> bal_of s' b <= bal_of s b + cost_of b ls.
 Proof.
-  revert ls. induction ms as [|m ms IH]; intros ls Hd Hnn s s' Hrun b Hb.
+  intro Hrf. revert ls. induction ms as [|m ms IH]; intros ls Hd Hnn s s' Hrun b Hb.
   - simpl in Hd. inversion Hd. subst. unfold run_msgs in Hrun. simpl in Hrun. inversion Hrun. subst.
     unfold cost_of. simpl. lia.
   - simpl in Hd. destruct m as [[a n g p v xi|?|? ? ?|? ? ? ? ? ? ?]| | | |]; try discriminate.
@@ -671,7 +687,7 @@ Proof.
     rewrite run_msgs_cons, run_msg_leaf in Hrun.
     destruct (leaf_run c w s (EthTx a n g p v xi)) as [s1|] eqn:Hl; [|discriminate].
     specialize (IH r eq_refl Hnn' s1 s' Hrun b Hb).
-    pose proof (leaf_run_eth_bal c w s a n g p v xi s1 Hp Hv Hi He Hl b Hb) as H1.
+    pose proof (leaf_run_eth_bal c w s a n g p v xi s1 (Hrf p xi) Hp Hv Hi He Hl b Hb) as H1.
     unfold cost_of. simpl. fold (cost_of b r). lia.
 Qed.
 
@@ -702,7 +718,7 @@ Proof.
   - unfold deliver. rewrite Hroute. unfold evm_ante. rewrite Hvb.
     match goal with |- context [if ?b then _ else _] => destruct b eqn:Hcond end; [|simpl; lia].
     destruct (evm_admit c (t_msgs x) s) as [s1|] eqn:Hadm0; [|simpl; lia].
-    destruct (evm_admit_admits c _ _ _ Hgas Hexact Hseq Hadm0) as (ls & Hd & Hadm).
+    destruct (evm_admit_admits c _ _ _ Hgas Hexact Hseq (proj1 (cfg_ok_floor c Hc)) Hadm0) as (ls & Hd & Hadm).
     pose proof (admit_seq_bal _ _ _ Hadm a) as Hb1.
     apply andb_true_iff in Hcond as [Hcond _]. apply andb_true_iff in Hcond as [_ Hcond].
     apply andb_true_iff in Hcond as [Hcond _]. apply andb_true_iff in Hcond as [_ Hbasic].
@@ -710,7 +726,7 @@ Proof.
     pose proof (cost_of_nonneg a ls Hnn) as Hcost.
     destruct (run_msgs c w (t_msgs x) s1) as [s2|] eqn:Hr; simpl; [|lia].
     assert (Hsink : a <> w_sink w) by (intro E; subst; rewrite (sink_non_eth w Hw) in Ha; discriminate).
-    pose proof (run_direct_eth_bal c w _ _ Hd Hnn s1 s2 Hr a Hsink). lia.
+    pose proof (run_direct_eth_bal c w _ _ (fun p x => cfg_ok_refund_price c p x Hc) Hd Hnn s1 s2 Hr a Hsink). lia.
   - unfold deliver. rewrite Hroute. simpl. lia.
   - unfold deliver. rewrite Hroute. simpl. lia.
 Qed.
@@ -734,6 +750,7 @@ Definition cfg_eth_keys_accepted : cfg :=
   {| nonevm_known := true; evm_route := RouteEVM; other_route := RouteReject; other_decodable := false;
      g_prevent := true; g_authz := true; g_authz_exec := true; g_authz_rec := false; vb_on := true; sig_on := true; sig_accepts_eth := true; signer_recovered := true;
      fee_on := true; seq_on := true; e_vb := true; e_sig := true; e_acc := true; e_gas := true; fee_exact := true; e_seq := true;
+     fee_floor := fun _ => true; refund_floor := fun _ => true;
      nonce_reset := true; post_nonce_call := true; post_nonce_create := true;
      wasm_signer := true; wasm_no_eth := true |}.
 
@@ -756,6 +773,7 @@ Definition cfg_signer_from_field : cfg :=
   {| nonevm_known := true; evm_route := RouteEVM; other_route := RouteReject; other_decodable := false;
      g_prevent := true; g_authz := true; g_authz_exec := true; g_authz_rec := false; vb_on := true; sig_on := true; sig_accepts_eth := false; signer_recovered := false;
      fee_on := true; seq_on := true; e_vb := true; e_sig := true; e_acc := true; e_gas := true; fee_exact := true; e_seq := true;
+     fee_floor := fun _ => true; refund_floor := fun _ => true;
      nonce_reset := true; post_nonce_call := true; post_nonce_create := true;
      wasm_signer := true; wasm_no_eth := true |}.
 
@@ -774,6 +792,7 @@ Definition cfg_wasm_signer_unchecked : cfg :=
   {| nonevm_known := true; evm_route := RouteEVM; other_route := RouteReject; other_decodable := false;
      g_prevent := true; g_authz := true; g_authz_exec := true; g_authz_rec := false; vb_on := true; sig_on := true; sig_accepts_eth := false; signer_recovered := true;
      fee_on := true; seq_on := true; e_vb := true; e_sig := true; e_acc := true; e_gas := true; fee_exact := true; e_seq := true;
+     fee_floor := fun _ => true; refund_floor := fun _ => true;
      nonce_reset := true; post_nonce_call := true; post_nonce_create := true;
      wasm_signer := false; wasm_no_eth := true |}.
 
@@ -792,6 +811,7 @@ Definition cfg_no_nonce_check : cfg :=
   {| nonevm_known := true; evm_route := RouteEVM; other_route := RouteReject; other_decodable := false;
      g_prevent := true; g_authz := true; g_authz_exec := true; g_authz_rec := false; vb_on := true; sig_on := true; sig_accepts_eth := false; signer_recovered := true;
      fee_on := true; seq_on := true; e_vb := true; e_sig := true; e_acc := true; e_gas := true; fee_exact := true; e_seq := false;
+     fee_floor := fun _ => true; refund_floor := fun _ => true;
      nonce_reset := true; post_nonce_call := true; post_nonce_create := true;
      wasm_signer := true; wasm_no_eth := true |}.
 
@@ -814,6 +834,7 @@ Definition cfg_fee_per_gas : cfg :=
   {| nonevm_known := true; evm_route := RouteEVM; other_route := RouteReject; other_decodable := false;
      g_prevent := true; g_authz := true; g_authz_exec := true; g_authz_rec := false; vb_on := true; sig_on := true; sig_accepts_eth := false; signer_recovered := true;
      fee_on := true; seq_on := true; e_vb := true; e_sig := true; e_acc := true; e_gas := true; fee_exact := false; e_seq := true;
+     fee_floor := fun _ => true; refund_floor := fun _ => true;
      nonce_reset := true; post_nonce_call := true; post_nonce_create := true;
      wasm_signer := true; wasm_no_eth := true |}.
 
@@ -825,6 +846,37 @@ Proof.
   split; [repeat constructor|]. split; [reflexivity|]. vm_compute. reflexivity.
 Qed.
 
+(** … for ANY price, as long as BOTH sides use the same one: the refund of leftover gas at price [q] never exceeds the
+    deduction of the gas limit at the same price [q] (whatever the transaction type, floored at the base fee or not) *)
+Lemma refund_le_prepay_same_price c g used p x :
+  pay_price c p x = refund_price c p x -> 0 <= refund_price c p x -> 0 <= used ->
+  refund_of g used (refund_price c p x) <= prepay true g (pay_price c p x).
+Proof. intros E Hq Hu. rewrite E. apply refund_le_exact_prepay; assumption. Qed.
+
+(** AccessListTx.EffectiveFeeWei losing the base-fee floor ("the same as Fee for AccessListTx") while
+    EffectiveGasPriceWeiPerGas keeps it: a type-1 transaction naming 1 wei per gas prepays ⌊gas limit × 1 wei⌋ = 0 unibi
+    and is refunded its leftover gas at the base fee, out of what the other message of the transaction paid *)
+Definition cfg_access_fee_not_floored : cfg :=
+  {| nonevm_known := true; evm_route := RouteEVM; other_route := RouteReject; other_decodable := false;
+     g_prevent := true; g_authz := true; g_authz_exec := true; g_authz_rec := false; vb_on := true; sig_on := true; sig_accepts_eth := false; signer_recovered := true;
+     fee_on := true; seq_on := true; e_vb := true; e_sig := true; e_acc := true; e_gas := true; fee_exact := true; e_seq := true;
+     fee_floor := fun ty => match ty with TAccess => false | _ => true end; refund_floor := fun _ => true;
+     nonce_reset := true; post_nonce_call := true; post_nonce_create := true;
+     wasm_signer := true; wasm_no_eth := true |}.
+
+Definition x_access_1wei : xinfo :=
+  {| x_kind := XCall; x_ty := TAccess; x_raw := 1; x_cap := 1; x_intr := 21000; x_exec := 0; x_out := XStop |}.
+Definition tx_access_below_base : tx :=
+  evm_tx [Leaf (EthTx 20 0 21000 (5 * WEI) 1 (x_transfer (5 * WEI))); Leaf (EthTx 21 0 100000 (eff_legacy 1) 1 x_access_1wei)].
+
+Lemma refuted_if_access_list_fee_not_floored :
+  exists x a, tx_wf harness_world x /\ t_ext x = EvmExt /\
+    snd (deliver cfg_access_fee_not_floored harness_world harness_init x) = true /\
+    bal_of harness_init a < bal_of (fst (deliver cfg_access_fee_not_floored harness_world harness_init x)) a.
+Proof.
+  exists tx_access_below_base, 21%nat. split; [repeat constructor|]. split; [reflexivity|]. vm_compute. split; reflexivity.
+Qed.
+
 (** the write of msg.nonce + 1 after evm.Create dropped ("evm.Create increments the caller nonce itself"): a contract
     creation carrying a value the sender can pay, or pay the gas prepayment at the base fee for, but not both (gas
     price below the base fee: the balance check prices the gas lower than the deduction does) is admitted, charged
@@ -834,10 +886,11 @@ Definition cfg_create_nonce_not_bumped : cfg :=
   {| nonevm_known := true; evm_route := RouteEVM; other_route := RouteReject; other_decodable := false;
      g_prevent := true; g_authz := true; g_authz_exec := true; g_authz_rec := false; vb_on := true; sig_on := true; sig_accepts_eth := false; signer_recovered := true;
      fee_on := true; seq_on := true; e_vb := true; e_sig := true; e_acc := true; e_gas := true; fee_exact := true; e_seq := true;
+     fee_floor := fun _ => true; refund_floor := fun _ => true;
      nonce_reset := true; post_nonce_call := true; post_nonce_create := false;
      wasm_signer := true; wasm_no_eth := true |}.
 
-Definition x_create_for_free : xinfo := {| x_kind := XCreate; x_cap := 0; x_intr := 53004; x_exec := 0; x_out := XStop |}.
+Definition x_create_for_free : xinfo := {| x_kind := XCreate; x_ty := TLegacy; x_raw := 0; x_cap := 0; x_intr := 53004; x_exec := 0; x_out := XStop |}.
 Definition tx_create_with_value : tx := evm_tx [Leaf (EthTx 23 0 100000 WEI 320000 x_create_for_free)].
 
 Lemma refuted_if_create_skips_post_nonce :
@@ -869,6 +922,12 @@ Example create_with_value_consumes_nonce_once :
   let d2 := deliver cfg_current harness_world (fst d1) tx_create_with_value in
   snd d1 = true /\ seq_of (fst d1) 23 = 1%nat /\ bal_of (fst d1) 23 = POOR - 53004 /\
   snd d2 = false /\ fst d2 = fst d1 /\ List.length (ran (fst d2)) = 1%nat.
+Proof. vm_compute. repeat split; reflexivity. Qed.
+
+(** the same type-1 transaction on the committed code: the gas limit is prepaid at the base fee, nobody gains *)
+Example access_list_below_base_prepays_at_base_fee :
+  let d := deliver cfg_current harness_world harness_init tx_access_below_base in
+  snd d = true /\ bal_of (fst d) 21 = FUND - 21000 - 1 /\ bal_of (fst d) 20 = FUND - 105000 - 1 /\ feecol (fst d) = 126000.
 Proof. vm_compute. repeat split; reflexivity. Qed.
 
 Example harness_init_grants_ok : grants_ok harness_world harness_init.
